@@ -472,7 +472,7 @@ pub fn run(ctx: &Ctx) -> Report {
     let v = search(
         ctx,
         "reject",
-        ctx.tier.pick(12_000, 150_000),
+        ctx.tier.pick(60_000, 600_000),
         || (seq::seq_case(W_PREFIX, max_ops), bad_strategy()).prop_map(|(s, bad)| Case { ptype: s.ptype, prefix: s.ops, bad }),
         |c: &Case, st| {
             st.eval();
